@@ -880,4 +880,109 @@ theorem binary_encoding_roundtrip (hI : IntRoundTrip) (hV : FValRoundTrip) (u : 
         simp [findFirst, findAll, mkEl, XmlNode.kids, Step.matches, step, XmlNode.isElem, XmlNode.tag, XmlNode.ns]
       simp only [loadBinaryEncoding, h1, h2, h3, he, hrt, bind, Except.bind, pure, Except.pure]
 
+/-! ### string encodings (single-byte codecs, no termination character) -/
+
+/-- String encodings in the regime the theorem covers: a single-byte codec (so no byte order is recorded), no
+    termination character, a leading size that is absent or non-zero, and exactly one of the three size forms. -/
+inductive StrWF : StrEnc → Prop
+  | fixed (enc : String) (henc : enc ∈ singleByteEncodings) (n : Int) (hn : n ≠ 0) (lead : Option Int)
+      (hl : lead ≠ some 0) :
+      StrWF { encoding := enc, fixedLength := some n, dynRef := none, lookup := none, useCal := true, adjuster := none,
+              termChar := none, leadingSize := lead, byteOrder := none }
+  | dynamic (enc : String) (henc : enc ∈ singleByteEncodings) (r : String) (hr : r ≠ "") (uc : Bool)
+      (adj : Option LinAdj) (lead : Option Int) (hl : lead ≠ some 0) :
+      StrWF { encoding := enc, fixedLength := none, dynRef := some r, lookup := none, useCal := uc, adjuster := adj,
+              termChar := none, leadingSize := lead, byteOrder := none }
+
+theorem leading_cases (lead : Option Int) (hl : lead ≠ some 0) :
+    (lead = none ∧ optTruthy lead = false) ∨ (∃ k, lead = some k ∧ k ≠ 0 ∧ optTruthy lead = true) := by
+  cases lead with
+  | none => left; exact ⟨rfl, rfl⟩
+  | some k =>
+    right
+    have hk : k ≠ 0 := fun h => hl (by rw [h])
+    exact ⟨k, rfl, hk, by simpa [optTruthy] using hk⟩
+
+/-- A string encoding of that regime — codec, fixed or referenced size with its selector and adjustment, leading
+    size — survives write → load. -/
+theorem string_encoding_roundtrip (hI : IntRoundTrip) (u : Option String) (e : StrEnc) (hwf : StrWF e) (x : XmlNode)
+    (hw : writeEncoding u (.str e) = .ok x) : loadStringEncoding u x = .ok (.str e) := by
+  cases hwf with
+  | fixed enc henc n hn lead hl =>
+    have hn' : (n != 0) = true := by simpa using hn
+    have hsz : readInt (toString n) = .ok n := hI n
+    have hsz' : readInt n.repr = .ok n := hsz
+    rcases leading_cases lead hl with ⟨rfl, hlt⟩ | ⟨k, rfl, hk, hlt⟩
+    · simp only [singleByteEncodings, List.mem_cons, List.mem_nil_iff, or_false] at henc
+      rcases henc with rfl | rfl | rfl | rfl <;>
+      · simp [writeEncoding, optTruthy, hn', pure, Except.pure, bind, Except.bind, mkEl] at hw
+        subst hw
+        simp [loadStringEncoding, loadStrSpec, strSizeEl, loadStrTail, mkStrEnc, findFirst, findAll, XmlNode.kids,
+          Step.matches, step, XmlNode.isElem, XmlNode.tag, XmlNode.ns, XmlNode.attr?, XmlNode.attrs, XmlNode.text,
+          readIntOpt, hsz', optTruthy, strTruthy, listTruthy, hn', singleByteEncodings, SUPPORTED_STRING_ENCODINGS,
+          bind, Except.bind, pure, Except.pure]
+    · have hk' : (k != 0) = true := by simpa using hk
+      have hks : readInt (toString k) = .ok k := hI k
+      have hks' : readInt k.repr = .ok k := hks
+      simp only [singleByteEncodings, List.mem_cons, List.mem_nil_iff, or_false] at henc
+      rcases henc with rfl | rfl | rfl | rfl <;>
+      · simp [writeEncoding, optTruthy, hn', hk', pure, Except.pure, bind, Except.bind, mkEl] at hw
+        subst hw
+        simp [loadStringEncoding, loadStrSpec, strSizeEl, loadStrTail, mkStrEnc, findFirst, findAll, XmlNode.kids,
+          Step.matches, step, XmlNode.isElem, XmlNode.tag, XmlNode.ns, XmlNode.attr?, XmlNode.attr!, XmlNode.attrs,
+          XmlNode.text, readIntOpt, hsz', hks', optTruthy, strTruthy, listTruthy, hn', hk', singleByteEncodings,
+          SUPPORTED_STRING_ENCODINGS, bind, Except.bind, pure, Except.pure]
+  | dynamic enc henc r hr uc adj lead hl =>
+    have hr' : r.isEmpty = false := by
+      cases hh : r.isEmpty
+      · rfl
+      · exact absurd (String.isEmpty_iff.mp hh) hr
+    have hadj : ∀ a : LinAdj, readInt a.slope.repr = .ok a.slope ∧ readInt a.intercept.repr = .ok a.intercept :=
+      fun a => ⟨hI a.slope, hI a.intercept⟩
+    rcases leading_cases lead hl with ⟨rfl, hlt⟩ | ⟨k, rfl, hk, hlt⟩
+    · simp only [singleByteEncodings, List.mem_cons, List.mem_nil_iff, or_false] at henc
+      cases adj with
+      | none =>
+        rcases henc with rfl | rfl | rfl | rfl <;>
+        · simp [writeEncoding, optTruthy, strTruthy, hr', writeParamInstanceRef, pure, Except.pure, bind, Except.bind,
+            mkEl] at hw
+          subst hw
+          simp [loadStringEncoding, loadStrSpec, strSizeEl, loadStrTail, loadDynamicValue, loadLinearAdjuster, mkStrEnc,
+            findFirst, findAll, XmlNode.kids, Step.matches, step, XmlNode.isElem, XmlNode.tag, XmlNode.ns, XmlNode.attr?,
+            XmlNode.attr!, XmlNode.attrs, XmlNode.text, isTrueWord_pyBool, optTruthy, strTruthy, listTruthy, hr',
+            singleByteEncodings, SUPPORTED_STRING_ENCODINGS, bind, Except.bind, pure, Except.pure]
+      | some a =>
+        obtain ⟨h1, h2⟩ := hadj a
+        rcases henc with rfl | rfl | rfl | rfl <;>
+        · simp [writeEncoding, optTruthy, strTruthy, hr', writeParamInstanceRef, writeLinAdj, showInt, pure, Except.pure,
+            bind, Except.bind, mkEl] at hw
+          subst hw
+          simp [loadStringEncoding, loadStrSpec, strSizeEl, loadStrTail, loadDynamicValue, loadLinearAdjuster, mkStrEnc,
+            findFirst, findAll, XmlNode.kids, Step.matches, step, XmlNode.isElem, XmlNode.tag, XmlNode.ns, XmlNode.attr?,
+            XmlNode.attr!, XmlNode.attrs, XmlNode.text, isTrueWord_pyBool, optTruthy, strTruthy, listTruthy, hr', h1, h2,
+            singleByteEncodings, SUPPORTED_STRING_ENCODINGS, bind, Except.bind, pure, Except.pure]
+    · have hk' : (k != 0) = true := by simpa using hk
+      have hks' : readInt k.repr = .ok k := hI k
+      simp only [singleByteEncodings, List.mem_cons, List.mem_nil_iff, or_false] at henc
+      cases adj with
+      | none =>
+        rcases henc with rfl | rfl | rfl | rfl <;>
+        · simp [writeEncoding, optTruthy, strTruthy, hr', hk', writeParamInstanceRef, pure, Except.pure, bind, Except.bind,
+            mkEl] at hw
+          subst hw
+          simp [loadStringEncoding, loadStrSpec, strSizeEl, loadStrTail, loadDynamicValue, loadLinearAdjuster, mkStrEnc,
+            findFirst, findAll, XmlNode.kids, Step.matches, step, XmlNode.isElem, XmlNode.tag, XmlNode.ns, XmlNode.attr?,
+            XmlNode.attr!, XmlNode.attrs, XmlNode.text, isTrueWord_pyBool, optTruthy, strTruthy, listTruthy, hr', hk',
+            hks', singleByteEncodings, SUPPORTED_STRING_ENCODINGS, bind, Except.bind, pure, Except.pure]
+      | some a =>
+        obtain ⟨h1, h2⟩ := hadj a
+        rcases henc with rfl | rfl | rfl | rfl <;>
+        · simp [writeEncoding, optTruthy, strTruthy, hr', hk', writeParamInstanceRef, writeLinAdj, showInt, pure,
+            Except.pure, bind, Except.bind, mkEl] at hw
+          subst hw
+          simp [loadStringEncoding, loadStrSpec, strSizeEl, loadStrTail, loadDynamicValue, loadLinearAdjuster, mkStrEnc,
+            findFirst, findAll, XmlNode.kids, Step.matches, step, XmlNode.isElem, XmlNode.tag, XmlNode.ns, XmlNode.attr?,
+            XmlNode.attr!, XmlNode.attrs, XmlNode.text, isTrueWord_pyBool, optTruthy, strTruthy, listTruthy, hr', hk',
+            hks', h1, h2, singleByteEncodings, SUPPORTED_STRING_ENCODINGS, bind, Except.bind, pure, Except.pure]
+
 end Spp.C09
